@@ -54,10 +54,10 @@ def gen(rng, tier):
     if rng.random() < 0.25:
         subp = G.gen_profile(rng, {"facilities": False, "comps": False})
         spec["sub"] = {"model": G.gen_feasible(rng, subp), "cfg": G.gen_cfg(rng, subp, max_time=200), "file": "mem:sub0.json"}
+        spec["sub"]["model"]["unit_s"] = rng.choice([60, 60, 3600, 86400, 129600])
         m = spec["model"]
-        i = len(m["tasks"])
-        m["tasks"].append({"id": "t%d" % i, "work": 1.0,
-                           "sub": {"file": "mem:sub0.json", "unit_s": 60, "remove_abs": rng.random() < 0.5, "configure": rng.random() < 0.8}})
+        i = G.append_task(m, {"id": "t%d" % len(m["tasks"]), "work": 1.0,
+                           "sub": {"file": "mem:sub0.json", "unit_s": rng.choice([60, 600, 86400, 129600]), "remove_abs": rng.random() < 0.5, "configure": rng.random() < 0.8}}, rng)
         if i > 0 and rng.random() < 0.5:
             m["deps"].append([rng.randrange(i), i, 0])
         if rng.random() < 0.35:
@@ -150,6 +150,76 @@ def check_refs(res, p):
             for x in f.assigned_task_list:
                 if not member(x, tasks):
                     bad("facility", f, "assigned_task_list", x)
+
+
+def _is_value(v, depth=0):
+    import datetime as _dt
+    if v is None or isinstance(v, (bool, int, float, str, _dt.datetime, _dt.timedelta)):
+        return True
+    if depth > 4:
+        return False
+    if isinstance(v, (list, tuple)):
+        return all(_is_value(x, depth + 1) for x in v)
+    if isinstance(v, dict):
+        return all(isinstance(k, str) and _is_value(x, depth + 1) for k, x in v.items())
+    return False
+
+
+def _norm(v):
+    if isinstance(v, tuple):
+        return [_norm(x) for x in v]
+    if isinstance(v, list):
+        return [_norm(x) for x in v]
+    if isinstance(v, dict):
+        return {k: _norm(x) for k, x in v.items()}
+    if isinstance(v, bool) or v is None or isinstance(v, str):
+        return v
+    if isinstance(v, int):
+        return int(v)
+    return v
+
+
+# "advanced" customisation variables: not used by the base simulation, derived at initialize or not logged; outside
+# "every simulation-relevant model parameter"
+ADVANCED = {"additional_work_amount", "additional_task_flag", "actual_work_amount", "error_tolerance", "error",
+            "quality_skill_mean_map", "quality_skill_sd_map"}
+
+
+def check_attributes(res, orig, new, stage):
+    """Every constructor parameter that holds a plain value on the original object must have an equal value on the
+    restored object (object references are covered by check_refs)."""
+    import inspect
+
+    ixo, ixn = D.index(orig), D.index(new)
+    pairs = [("project", orig, new)]
+    for kind, a, b in (("task", ixo.task, ixn.task), ("component", ixo.comp, ixn.comp), ("worker", ixo.worker, ixn.worker),
+                       ("facility", ixo.fac, ixn.fac), ("team", ixo.team, ixn.team), ("workplace", ixo.wp, ixn.wp)):
+        for oid, o in a.items():
+            if oid in b:
+                pairs.append((kind, o, b[oid]))
+            else:
+                res.add("attrs", "C16.object_missing_after_restore.%s" % kind, "stage %s: %s %s is missing in the restored project" % (stage, kind, oid), None)
+    for kind, o, n in pairs:
+        cls = next((c_ for c_ in type(o).__mro__ if c_.__module__.startswith("pDESy.")), type(o))  # skip the harness subclass
+        try:
+            params = [p_ for p_ in inspect.signature(cls.__init__).parameters if p_ != "self"]
+        except (TypeError, ValueError):
+            continue
+        for name in params:
+            if name in ADVANCED or not hasattr(o, name):
+                continue
+            vo = getattr(o, name)
+            if not _is_value(vo):
+                continue
+            if vo is None and hasattr(n, name) and not _is_value(getattr(n, name)):
+                continue  # an object slot that was still empty (e.g. parent_workflow before the first initialize)
+            if not hasattr(n, name):
+                res.add("attrs", "C16.attribute_lost.%s.%s" % (kind, name), "stage %s: restored %s %s has no attribute %s" % (stage, kind, getattr(o, "ID", ""), name), None)
+                continue
+            vn = getattr(n, name)
+            if not _is_value(vn) or _norm(vo) != _norm(vn):
+                res.add("attrs", "C16.attribute_differs.%s.%s" % (kind, name),
+                        "stage %s: %s %s: %s was %r before saving and is %r in the restored project" % (stage, kind, getattr(o, "ID", ""), name, vo, vn), None)
 
 
 def json_diff_key(a, b):
@@ -259,6 +329,7 @@ def run(spec):
             import shutil
             shutil.rmtree(tmpdir, ignore_errors=True)
     check_refs(res, new)
+    check_attributes(res, p, new, stage)
     # behavioural twin: simulate both from scratch under the same schedule and configuration
     seams.attach(new)
     seams.rerank(new, ranks or {})
